@@ -23,7 +23,6 @@ sufficient decrease.
 
 import logging
 import warnings
-from copy import copy
 from typing import Optional
 
 import numpy as np
@@ -253,6 +252,10 @@ def line_search(
     f_m1 = f0
     dphi_m1 = dphi0
     _iter = 0
+    # lowest objective function value met so far and the associated steplength:
+    # only a trial strictly below the starting value is eligible
+    f_best = f0
+    best_stp: Optional[float] = None
 
     if not is_use_minpack2:
         # careful, there is an issue in the DCSRRCH.__call__ function. It returns
@@ -292,12 +295,12 @@ def line_search(
             )
 
         if task[:2] == b"FG":
-            stp_old: float = copy(steplength_0)
-            f_m1_old: float = copy(f_m1)
             steplength_0 = steplength
             f_m1, dphi_m1 = sf.fun_and_grad(clip2bounds(x0 + steplength * d, lb, ub))
             dphi_m1 = dphi_m1.dot(d)
-            best_stp = steplength if f_m1 < f_m1_old else stp_old
+            if f_m1 < f_best:
+                f_best = f_m1
+                best_stp = steplength
         else:
             break
         _iter += 1
